@@ -126,6 +126,10 @@ func (r *run) interceptProduce(req *fakekafka.Request) *fakekafka.Reply {
 		f.Err = 19
 	case "rejPerm":
 		f.Err = 10
+	case "rejUnknown":
+		f.Err = -1
+	case "rejPerm2":
+		f.Err = 21
 	case "netTransient":
 		f.DropBefore = true
 	default:
